@@ -204,6 +204,12 @@ Theorem range_grid_continues_domain_grid :
 Proof. exact resize_axis_grid. Qed.
 Print Assumptions range_grid_continues_domain_grid.
 
+(* T1: without an explicit offset the size change is distributed evenly, with preference
+   for the left in case of ambiguity (docstring of ResizingOperator). *)
+Theorem default_offset_even_prefers_left : forall n n_new : Z,
+  let '(nl, nr) := num_lr n n_new None in ((nl + nr = n_new - n) /\ (0 <= nl - nr <= 1))%Z.
+Proof. exact default_split. Qed.
+
 (* T1: _offset_from_spaces (regenerated [offset_float]: signed shift, negated when the
    range is larger) recovers the cells added on the left of an extension resp. removed
    on the left of a restriction. *)
